@@ -124,7 +124,7 @@ class RigI(Rig):
         for t, nm in ((self.etask, "E"), (self.utask, "U")):
             if t is not None and t.done() and not t.cancelled() and t.exception() is not None:
                 exc.append((nm, repr(t.exception())[:80]))
-        return applicable, self.snapshot(), list(self.deliveries), self.occupancy(), exc, self.abandoned_not_disconnected()
+        return applicable, self.snapshot(), list(self.deliveries), self.occupancy(), exc, self.abandoned_not_disconnected(), self.facades_dropped_alive()
 
     async def close(self):
         self.free_run = True
